@@ -781,7 +781,7 @@ fn passes(ctx: &Ctx) -> Vec<Pass> {
         Pass { name: "full:pk2", setup: vec![CT1, I1, I2], alphabet: table_alphabet(), depth: d(2, 3), clean: false },
         Pass { name: "full:nopk2", setup: vec![CT2, I1, I2], alphabet: table_alphabet(), depth: d(2, 3), clean: false },
         Pass { name: "full:schema", setup: vec![], alphabet: schema_alphabet(), depth: d(3, 5), clean: false },
-        Pass { name: "clean:empty", setup: vec![], alphabet: table_alphabet(), depth: d(3, 4), clean: true },
+        Pass { name: "clean:empty", setup: vec![], alphabet: table_alphabet(), depth: d(2, 4), clean: true },
         Pass { name: "clean:pk2", setup: vec![CT1, I1, I2], alphabet: table_alphabet(), depth: d(3, 4), clean: true },
         Pass { name: "clean:nopk2", setup: vec![CT2, I1, I2], alphabet: table_alphabet(), depth: d(3, 4), clean: true },
         Pass { name: "clean:schema", setup: vec![], alphabet: schema_alphabet(), depth: d(4, 6), clean: true },
